@@ -1,13 +1,291 @@
+/-
+C20 — Numeric helpers satisfy their defining identities.
+
+Property theorems only.  Every statement is about the executable definitions of
+`Model/Numeric.lean` (the same terms the driver runs), over `Rat` = `ℚ`, for *all* arguments.
+Irrational inputs of the code are parameters of the model and universally quantified here:
+`p` (the value of π, any positive rational), `s` (`x.std()`, any non-zero rational), the
+cosine/sine pairs of the satellites (arbitrary; the rotation `(c, s)` any point of the unit circle).
+
+Not proved (measured by the correspondence/oracle of harness/c20.py only): floating-point error;
+pint's own factor arithmetic; SciPy's `interp1d(cubic)`, `InterpolatedUnivariateSpline`,
+`BarycentricInterpolator`; that `np.linalg.inv`, `statsmodels.OLS` compute the inverse / the
+least-squares solution the model defines by the adjugate / the normal equations.
+-/
 import Midgard.Model.Numeric
+import Midgard.Spec.UnitsSI
+import Midgard.Proofs.C20Algebra
+import Midgard.Proofs.C20Lagrange
+import Midgard.Proofs.C20Dop
 
 namespace Midgard.Props.C20
-open Midgard.Numeric
+open Midgard.Numeric Midgard.Generated.C20 Midgard.Proofs.C20
 
-theorem dop_pythagoras (q : Mat4) :
-    (dopsOf q).gdop2 = (dopsOf q).pdop2 + (dopsOf q).tdop2 ∧
-    (dopsOf q).pdop2 = (dopsOf q).hdop2 + (dopsOf q).vdop2 := by
-  simp [dopsOf]
+/-! ## Unit factors are reciprocal and transitive -/
+
+/-- a2b × b2a = 1 -/
+theorem unit_recip (a b : UnitRow) (p : ℚ) (hd : a.dim = b.dim)
+    (ha : unitFactor a p ≠ 0) (hb : unitFactor b p ≠ 0) :
+    ∃ x y, convRow a b p = some x ∧ convRow b a p = some y ∧ x * y = 1 :=
+  convRow_recip a b p hd ha hb
+
+/-- a2b × b2c = a2c -/
+theorem unit_trans (a b c : UnitRow) (p x y : ℚ) (hb : unitFactor b p ≠ 0)
+    (h1 : convRow a b p = some x) (h2 : convRow b c p = some y) : convRow a c p = some (x * y) :=
+  convRow_trans a b c p x y hb h1 h2
+
+/-- obligation on the regenerated table: every factor is positive (so no conversion divides by zero) -/
+theorem units_table_positive : ∀ u ∈ units, 0 < u.q := by decide +kernel
+
+/-- obligation on the regenerated table: names are unique (lookup by name is unambiguous) -/
+theorem units_table_names_nodup : (units.map (·.name)).Nodup := by decide +kernel
+
+/-- obligation on the regenerated table: every unit that the standards define (Spec/UnitsSI.lean)
+has exactly the standard's dimension and factor -/
+theorem units_table_eq_si : ∀ r ∈ Midgard.Spec.UnitsSI.si, ∀ u ∈ units, u.name = r.name → u = r := by
+  decide +kernel
+
+theorem findUnit_mem (n : String) (u : UnitRow) (h : findUnit units n = some u) : u ∈ units :=
+  List.mem_of_find?_eq_some h
+
+/-- reciprocity for every pair of names of the table the library's units were extracted into -/
+theorem unit_table_recip (a b : String) (p x : ℚ) (hp : 0 < p) (h : conv a b p = some (some x)) :
+    ∃ y, conv b a p = some (some y) ∧ x * y = 1 := by
+  unfold conv at h ⊢
+  cases ha : findUnit units a with
+  | none => simp [ha] at h
+  | some ua =>
+    cases hb : findUnit units b with
+    | none => simp [ha, hb] at h
+    | some ub =>
+      simp only [ha, hb, Option.bind_eq_bind, Option.bind_some, Option.pure_def, Option.some.injEq] at h ⊢
+      have pa := unitFactor_pos ua p (units_table_positive ua (findUnit_mem a ua ha)) hp
+      have pb := unitFactor_pos ub p (units_table_positive ub (findUnit_mem b ub hb)) hp
+      have hd : ua.dim = ub.dim := by
+        unfold convRow at h; split at h
+        · assumption
+        · exact absurd h (by simp)
+      obtain ⟨x', y', h1, h2, h3⟩ := convRow_recip ua ub p hd (ne_of_gt pa) (ne_of_gt pb)
+      rw [h1] at h
+      injection h with h
+      exact ⟨y', h2, by rw [← h]; exact h3⟩
+
+/-- transitivity for every triple of names of the table -/
+theorem unit_table_trans (a b c : String) (p x y : ℚ) (hp : 0 < p)
+    (h1 : conv a b p = some (some x)) (h2 : conv b c p = some (some y)) :
+    conv a c p = some (some (x * y)) := by
+  unfold conv at h1 h2 ⊢
+  cases ha : findUnit units a with
+  | none => simp [ha] at h1
+  | some ua =>
+    cases hb : findUnit units b with
+    | none => simp [ha, hb] at h1
+    | some ub =>
+      cases hc : findUnit units c with
+      | none => simp [hb, hc] at h2
+      | some uc =>
+        simp only [ha, hb, hc, Option.bind_eq_bind, Option.bind_some, Option.pure_def, Option.some.injEq] at h1 h2 ⊢
+        have pb := unitFactor_pos ub p (units_table_positive ub (findUnit_mem b ub hb)) hp
+        exact convRow_trans ua ub uc p x y (ne_of_gt pb) h1 h2
+
+/-! ## Degree–minute–second conversion round-trips -/
+
+/-- `dms_to_deg(*deg_to_dms(x)) = x` for every angle: any magnitude, either sign, including
+negative angles below one degree (where the sign lives only in the `-0.0` of the degree field) -/
+theorem dms_roundtrip (p : ℚ) (hp : 0 < p) (x : SF) :
+    (dmsToDeg p (degToDms p x).1 (degToDms p x).2.1 (degToDms p x).2.2).val = x.val :=
+  dms_roundtrip_val p hp x
+
+/-- the sign bit itself survives for every non-zero angle -/
+theorem dms_roundtrip_signbit (p : ℚ) (hp : 0 < p) (x : SF) (hx : 0 < x.mag) :
+    (dmsToDeg p (degToDms p x).1 (degToDms p x).2.1 (degToDms p x).2.2).neg = x.neg :=
+  dms_roundtrip_sign p hp x hx
+
+/-- what `deg_to_dms` returns: whole degrees carrying the sign (`-0.0` below one degree; `+0.0` for
+`±0.0`, because `np.sign(±0.0)` is `+0.0`), whole minutes in [0, 60), seconds in [0, 60) -/
+theorem dms_fields (p : ℚ) (hp : 0 < p) (x : SF) :
+    (degToDms p x).1 = ⟨x.neg && x.mag != 0, (x.mag.floor : ℚ)⟩ ∧
+    (∃ k : ℤ, (degToDms p x).2.1 = (k : ℚ) ∧ 0 ≤ k ∧ k < 60) ∧
+    0 ≤ (degToDms p x).2.2 ∧ (degToDms p x).2.2 < 60 := by
+  rw [degToDms_fields p hp x]
+  obtain ⟨h1, h2, h3, h4⟩ := dms_fields_range x.mag
+  refine ⟨rfl, ⟨(frac1 x.mag * 60).floor, rfl, ?_, ?_⟩, h3, h4⟩
+  · exact_mod_cast h1
+  · exact_mod_cast h2
+
+/-- the sign of the degree field alone decides the sign of the angle (`-0.0, 19, 59.97` is negative) -/
+theorem dms_to_deg_sign (p : ℚ) (hp : 0 < p) (d : SF) (m s : ℚ) :
+    (dmsToDeg p d m s).val = (if d.neg then -1 else 1) * (d.mag + m / 60 + s / 3600) := by
+  have hpn : p ≠ 0 := ne_of_gt hp
+  simp only [dmsToDeg, dmsToRad, SF_scale_val, SF_ofRat_val]
+  unfold d2r r2d
+  field_simp
+
+/-! ## Lagrange interpolation -/
+
+/-- reproduces the data at the nodes (whole call: checks, sort, window selection, scaling, product formula) -/
+theorem lagrange_nodes (xs : List ℚ) (rows : List (List ℚ)) (dim w : ℕ) (be srt : Bool) (s : ℚ)
+    (xnew : List ℚ) (out : List (List ℚ)) (h : lagrange xs rows dim w be srt s xnew = .ok out) (hs : s ≠ 0)
+    (i j : ℕ) (hi : i < xs.length) (hj : j < xnew.length) (hx : xnew.getD j 0 = xs.getD i 0) :
+    out.getD j [] = (List.range dim).map (fun c => (rows.getD i []).getD c 0) :=
+  Proofs.C20.lagrange_nodes xs rows dim w be srt s xnew out h hs i j hi hj hx
+
+/-- invariant under reordering of the samples (the result, or the error, is the same) -/
+theorem lagrange_perm_invariant (xs xs' : List ℚ) (rows rows' : List (List ℚ)) (dim w : ℕ) (be : Bool) (s : ℚ)
+    (xnew : List ℚ) (hl : rows.length = xs.length) (hl' : rows'.length = xs'.length)
+    (hperm : (xs.zip rows).Perm (xs'.zip rows'))
+    (hdist : strictInc ((sortBy (xs.zip rows)).map (·.1)) = true) :
+    lagrange xs' rows' dim w be false s xnew = lagrange xs rows dim w be false s xnew :=
+  lagrange_perm xs xs' rows rows' dim w be s xnew hl hl' hperm hdist
+
+/-- reproduces every polynomial of degree below the window size, at every abscissa (also outside
+the sample range when `bounds_error=False`) -/
+theorem lagrange_polynomial (xs : List ℚ) (rows : List (List ℚ)) (dim w : ℕ) (be srt : Bool) (s : ℚ)
+    (xnew : List ℚ) (out : List (List ℚ)) (h : lagrange xs rows dim w be srt s xnew = .ok out) (hs : s ≠ 0)
+    (c : ℕ) (hc : c < dim) (P : Polynomial ℚ) (hdeg : P.degree < (w : ℕ))
+    (hdata : ∀ i, i < xs.length → (rows.getD i []).getD c 0 = P.eval (xs.getD i 0))
+    (j : ℕ) (hj : j < xnew.length) : (out.getD j []).getD c 0 = P.eval (xnew.getD j 0) :=
+  lagrange_poly xs rows dim w be srt s xnew out h hs c hc P hdeg hdata j hj
+
+/-- linear in the data, for the samples as the interpolant sees them (sorted abscissae `xs`).
+FULL STATEMENT (not yet proved for unsorted input): the same identity for `lagrange xs r₃ … false …`
+against `lagrange xs r₁ …`, `lagrange xs r₂ …` with unsorted `xs`; what is missing is the lemma that
+`sortBy` permutes the three row lists by one common permutation (it only inspects abscissae). -/
+theorem lagrange_linear_partial (xs : List ℚ) (r₁ r₂ r₃ : List (List ℚ)) (dim w : ℕ) (m s x a b : ℚ) (c : ℕ)
+    (hc : c < dim) (hwn : w ≤ xs.length)
+    (h₁ : r₁.length = xs.length) (h₂ : r₂.length = xs.length) (h₃ : r₃.length = xs.length)
+    (hcomb : ∀ i, i < xs.length →
+      (r₃.getD i []).getD c 0 = a * (r₁.getD i []).getD c 0 + b * (r₂.getD i []).getD c 0) :
+    (lagrangeAt xs r₃ dim w m s x).getD c 0 =
+      a * (lagrangeAt xs r₁ dim w m s x).getD c 0 + b * (lagrangeAt xs r₂ dim w m s x).getD c 0 :=
+  lagrangeAt_linear xs r₁ r₂ r₃ dim w m s x a b c hc hwn h₁ h₂ h₃ hcomb
+
+/-- 1- and n-dimensional data alike: component `c` of the result is the interpolation of column `c` alone -/
+theorem lagrange_ndim (xs : List ℚ) (rows : List (List ℚ)) (dim w : ℕ) (m s x : ℚ) (c : ℕ) (hc : c < dim) :
+    (lagrangeAt xs rows dim w m s x).getD c 0 =
+      (lagrangeAt xs (rows.map (fun r => [r.getD c 0])) 1 w m s x).getD 0 0 :=
+  lagrangeAt_component xs rows dim w m s x c hc
+
+/-- the rescaling `(x - mean) / std` has no influence on the value: any non-zero `std`, any `mean` -/
+theorem lagrange_scale_invariant (xs : List ℚ) (rows : List (List ℚ)) (dim w : ℕ) (m s m' s' x : ℚ)
+    (hs : s ≠ 0) (hs' : s' ≠ 0) :
+    lagrangeAt xs rows dim w m s x = lagrangeAt xs rows dim w m' s' x := by
+  rw [lagrangeAt_eq_raw _ _ _ _ _ _ _ hs, lagrangeAt_eq_raw _ _ _ _ _ _ _ hs']
+
+/-- window selection: the window of `w` consecutive samples chosen for a node contains that node,
+and always lies inside the sample range -/
+theorem lagrange_window (xs : List ℚ) (w k : ℕ) (hp : xs.Pairwise (· < ·)) (hk : k < xs.length)
+    (hw : 1 ≤ w) (hwn : w ≤ xs.length) (x : ℚ) :
+    startIdx xs w (xs.getD k 0) ≤ k ∧ k < startIdx xs w (xs.getD k 0) + w ∧
+    startIdx xs w x + w ≤ xs.length :=
+  ⟨(startIdx_node xs w k hp hk hw hwn).1, (startIdx_node xs w k hp hk hw hwn).2, startIdx_add_le xs w x hwn⟩
+
+/-! ## Dilution of precision -/
+
+/-- GDOP² = PDOP² + TDOP² and PDOP² = HDOP² + VDOP² -/
+theorem dop_pythagoras (sats : List Sat) (d : Dops) (h : computeDops sats = some d) :
+    d.gdop2 = d.pdop2 + d.tdop2 ∧ d.pdop2 = d.hdop2 + d.vdop2 := by
+  unfold computeDops at h
+  simp only at h
+  split at h
+  · exact absurd h (by simp)
+  · injection h with h
+    subst h
+    simp [dopsOf]
+
+/-- the values do not change when the satellites are reordered -/
+theorem dop_perm (l₁ l₂ : List Sat) (hp : l₁.Perm l₂) : computeDops l₁ = computeDops l₂ :=
+  computeDops_perm l₁ l₂ hp
+
+/-- the values do not change when all azimuths are rotated by one angle (cosine `c`, sine `s`) -/
+theorem dop_az_rotation (c s : ℚ) (h : c ^ 2 + s ^ 2 = 1) (l : List Sat) :
+    computeDops (l.map (rotSat c s)) = computeDops l :=
+  computeDops_rot c s h l
+
+/-- the matrix the traces are taken of is the inverse of `HᵀH` -/
+theorem dop_inverse (sats : List Sat) (h : det4 (normal sats) ≠ 0) :
+    toM (normal sats) * toM (inv4 (normal sats)) = 1 :=
+  mul_inv4 _ h
+
+/-! ## Plate motion -/
+
+/-- `v = ω × r` is perpendicular to the position and to the rotation pole -/
+theorem plate_perp (w r : V3) : dot3 (cross w r) r = 0 ∧ dot3 (cross w r) w = 0 :=
+  cross_perp w r
+
+/-- … for every plate of every model of the regenerated table and every position -/
+theorem plate_table_perp (model plate : String) (p : ℚ) (pos v : V3)
+    (h : plateVelocity model plate p pos = some v) :
+    dot3 v pos = 0 ∧ ∃ row ∈ poles, row.model = model ∧ row.plate = plate ∧ dot3 v (poleOmega row p) = 0 := by
+  unfold plateVelocity at h
+  cases hf : findPole poles model plate with
+  | none => simp [hf] at h
+  | some row =>
+    simp only [hf, Option.map_some, Option.some.injEq] at h
+    subst h
+    have hm : row ∈ poles := List.mem_of_find?_eq_some hf
+    have hq := List.find?_some hf
+    simp only [Bool.and_eq_true, beq_iff_eq] at hq
+    exact ⟨(cross_perp _ _).1, row, hm, hq.1, hq.2, (cross_perp _ _).2⟩
+
+/-! ## Least squares -/
+
+/-- the fitted line satisfies the normal equations -/
+theorem linreg_normal_equations (xs ys : List ℚ) (f : Fit) (hl : xs.length = ys.length)
+    (h : ols xs ys = some f) :
+    (resid f xs ys).sum = 0 ∧ (List.zipWith (· * ·) xs (resid f xs ys)).sum = 0 :=
+  ols_normal_equations xs ys f hl h
+
+/-- data on a line are fitted by that line -/
+theorem linreg_exact_line (xs : List ℚ) (a b : ℚ)
+    (hden : (xs.length : ℚ) * (xs.map (fun x => x * x)).sum - xs.sum * xs.sum ≠ 0) :
+    ols xs (xs.map (fun x => a + b * x)) = some ⟨a, b⟩ :=
+  ols_exact_line xs a b hden
+
+/-! ## Non-vacuity: concrete instances evaluated by the kernel -/
+
+example : conv "km" "inch" 3 = some (some (5000000 / 127)) := by decide +kernel
+example : conv "degree" "mas" 3 = some (some 3600000) := by decide +kernel
+example : conv "degree" "second" 3 = some none := by decide +kernel
+example : degToDms 3 ⟨true, 1 / 3⟩ = (⟨true, 0⟩, 20, 0) := by decide +kernel
+example : degToDms 3 ⟨true, 0⟩ = (⟨false, 0⟩, 0, 0) := by decide +kernel
+example : dmsToDeg 3 ⟨true, 0⟩ 19 (3 / 2) = ⟨true, 2283 / 7200⟩ := by decide +kernel
+example : lagrange [0, 1, 2, 3] [[0, 0], [1, 1], [4, 8], [9, 27]] 2 3 true false 2 [1 / 2, 2]
+    = .ok [[1 / 4, -1 / 4], [4, 8]] := by decide +kernel
+example : lagrange [2, 0, 3, 1] [[4], [0], [9], [1]] 1 3 true false 5 [1 / 2] = .ok [[1 / 4]] := by decide +kernel
+example : lagrange [0, 1, 1, 3] [[0], [1], [4], [9]] 1 3 true false 2 [1 / 2] = .error .unsorted := by decide +kernel
+example : (computeDops [⟨1/2, 1/2, 1, 0⟩, ⟨1/2, 1/2, 0, 1⟩, ⟨1/2, 1/2, -1, 0⟩, ⟨0, 1, 1, 0⟩, ⟨3/5, 4/5, 0, -1⟩]).isSome = true := by
+  decide +kernel
+example : computeDops [⟨1, 0, 1, 0⟩, ⟨1, 0, 1, 0⟩, ⟨1, 0, 1, 0⟩, ⟨1, 0, 1, 0⟩] = none := by decide +kernel
+example : (plateVelocity "itrf2014" "eura" 3 ⟨1, 2, 3⟩).isSome = true := by decide +kernel
+example : ols [0, 1, 2, 3] [1, 3, 5, 8] = some ⟨4 / 5, 23 / 10⟩ := by decide +kernel
 
 end Midgard.Props.C20
 
+#print axioms Midgard.Props.C20.unit_recip
+#print axioms Midgard.Props.C20.unit_trans
+#print axioms Midgard.Props.C20.units_table_positive
+#print axioms Midgard.Props.C20.units_table_names_nodup
+#print axioms Midgard.Props.C20.units_table_eq_si
+#print axioms Midgard.Props.C20.findUnit_mem
+#print axioms Midgard.Props.C20.unit_table_recip
+#print axioms Midgard.Props.C20.unit_table_trans
+#print axioms Midgard.Props.C20.dms_roundtrip
+#print axioms Midgard.Props.C20.dms_roundtrip_signbit
+#print axioms Midgard.Props.C20.dms_fields
+#print axioms Midgard.Props.C20.dms_to_deg_sign
+#print axioms Midgard.Props.C20.lagrange_nodes
+#print axioms Midgard.Props.C20.lagrange_perm_invariant
+#print axioms Midgard.Props.C20.lagrange_polynomial
+#print axioms Midgard.Props.C20.lagrange_linear_partial
+#print axioms Midgard.Props.C20.lagrange_ndim
+#print axioms Midgard.Props.C20.lagrange_scale_invariant
+#print axioms Midgard.Props.C20.lagrange_window
 #print axioms Midgard.Props.C20.dop_pythagoras
+#print axioms Midgard.Props.C20.dop_perm
+#print axioms Midgard.Props.C20.dop_az_rotation
+#print axioms Midgard.Props.C20.dop_inverse
+#print axioms Midgard.Props.C20.plate_perp
+#print axioms Midgard.Props.C20.plate_table_perp
+#print axioms Midgard.Props.C20.linreg_normal_equations
+#print axioms Midgard.Props.C20.linreg_exact_line
